@@ -34,7 +34,9 @@ def allConstElems : List Node → Bool
   | _ :: _ => false
 def allConstProps : List Node → Bool
   | [] => true
-  | .mk .kv _ [_, v] :: rest => isConstant v && allConstProps rest
+  | .mk .kv _ [k, v] :: rest =>
+    -- a computed key is evaluated on every render, just like the value
+    (match k with | .mk .computed _ [e] => isConstant e | _ => true) && isConstant v && allConstProps rest
   | .mk .ident (n :: _) _ :: rest => n == "undefined" && allConstProps rest   -- shorthand property
   | _ :: _ => false
 end
